@@ -404,6 +404,9 @@ class DequeGen:
                 out.append(["new cap=4 fail=1", "add 1", "destroy"])
                 out.append(["new cap=4 fail=2", "add 1", "destroy"])
             out.append(["new_default", "add 1", "add_first 2", "remove_last", "remove_last", "remove_last", "destroy"])
+            # default constructor = C library triple: growth, trim and removal must stay on that triple
+            out.append(["new_default"] + [f"add_last {i}" if i % 2 else f"add_first {i}" for i in range(1, 20)] +
+                       ["remove_first", "remove_at 3", "trim", "add_at 7 0", "filter_mut", "trim", "remove_all", "trim", "destroy"])
         if focus in ("iter", "all"):
             icaps = (1, 2, 4) if tier == "quick" else (1, 2, 4, 8)
             for cap, f, s in self.layouts(icaps):
@@ -439,6 +442,11 @@ class DequeGen:
                                       "remove_last o=1", "drop o=0", "add_last 8 o=1", "foreach o=1", "destroy"])
                     out.append(pre + [f"{mk} to=2", "drop o=2", "add_last 7", "destroy"])
                 out.append(pre + ["destroy_cb"])
+            # derived containers of a default-constructed deque inherit the C library triple
+            for mk in ("mk_copy_shallow", "mk_copy_deep", "mk_filter"):
+                out.append(["new_default"] + [f"add_last {i}" for i in range(1, 9)] +
+                           [f"{mk} to=1"] + [f"add_last {i} o=1" for i in range(20, 30)] +
+                           ["trim o=1", "drop o=0", "add_first 5 o=1", "destroy_cb o=1", "destroy"])
                 out.append(pre + ["remove_all_cb", "add 1", "destroy"])
         return out
 
@@ -466,9 +474,14 @@ class DequeGen:
             cc = rng.choice([0, 1, 2, 3, 4, 5, 6, 7, 8, 9, 12, 16, 17, 33] if rng.random() < 0.8 else list(range(34)))
             sims = [Sim(cc), None, None, None]
             ops = [f"new cap={cc}"]
+            default_obj = False
+            if focus in (None, "derived", "growth", "all") and rng.random() < 0.06:
+                sims[0] = Sim(8)                 # cc_deque_new: default capacity, C library triple
+                ops = ["new_default"]
+                default_obj = True
             fault = focus == "fault"
             reject = focus in ("reject", "all")
-            allow_fail = allf
+            allow_fail = allf and not default_obj   # the C library triple is never refused: fail= would desynchronise the simulation
             length = rng.randint(1, 70 if focus != "growth" else 400)
             p_add = rng.choice([0.2, 0.45, 0.6, 0.8])
             i = 0
